@@ -676,6 +676,9 @@ class Engine:
             if st1 is not st:
                 st.__dict__.update(st1.__dict__)
             return s.truthy(v, st)
+        if isinstance(b, VObj):
+            # membership in an opaque container: an uninterpreted function of (container, key)
+            return z3.Function("py_contains", PyObj, PyObj, B)(b.t, s.to_obj(a))
         raise OutOfSubset("`in` of %r in %r" % (a, b))
 
     def ev_BinOp(s, n, st, out):
